@@ -21,6 +21,10 @@ func propC16(c *Ctx) {
 		ruleDecodeFresh(c, rdf)
 		rtc := c.Rule("trace-complete", "the stack trace handed to the host has one entry per recorded position: its allocation length is len(Trace) itself", 1)
 		ruleTraceComplete(c, rtc)
+		rsl := c.Rule("search-last-le", "the file of a position is found as the last file whose base is <= the position: sort.Search(n, pred) - 1 with the strict predicate `base > position`", 1)
+		ruleSearchLastLE(c, rsl)
+		rtd := c.Rule("trace-dedup-adjacent", "a position is dropped from the trace only when it repeats the last recorded one", 1)
+		ruleTraceDedupAdjacent(c, rtd)
 	}()
 	// ---- lit-pos -----------------------------------------------------------------------
 	rl := c.Rule("lit-pos", "every literal node of the parser's AST that is constructed outside the parser (replacement literals made by the optimizer and the compiler) sets its position field: an instruction compiled from a literal without a position has no source-map entry and errors are reported 'at -' or at the wrong line", 20)
